@@ -107,6 +107,15 @@ pub fn oracle_roundtrip(sub: &str, x: &[u8], rank: u64, case: &dyn Fn() -> Value
             }
         }
     }
+    // the written bytes do not depend on the sink's appetite, including sinks with vectored writes
+    for chunk in [5usize, 4096] {
+        let mut sm = Small { out: vec![], chunk };
+        match catch(|| p.write(&mut sm)) {
+            Ok(Ok(())) if sm.out == w => {}
+            Ok(Ok(())) => bad("bytes-depend-on-sink", "", format!("a sink taking {} bytes per (vectored) call received {} bytes, a Vec {}", chunk, sm.out.len(), w.len())),
+            _ => bad("bytes-depend-on-sink", "", format!("writing to a sink taking {} bytes per call fails", chunk)),
+        }
+    }
     // fixpoint
     match parse_pkg(&w) {
         Ok(Ok(p2)) => {
@@ -137,6 +146,37 @@ pub fn oracle_roundtrip(sub: &str, x: &[u8], rank: u64, case: &dyn Fn() -> Value
     Some(p)
 }
 
+/// A sink that takes at most `chunk` bytes per call — also per *vectored* call, across slice boundaries.
+pub struct Small {
+    pub out: Vec<u8>,
+    pub chunk: usize,
+}
+
+impl std::io::Write for Small {
+    fn write(&mut self, b: &[u8]) -> std::io::Result<usize> {
+        let n = b.len().min(self.chunk);
+        self.out.extend_from_slice(&b[..n]);
+        Ok(n)
+    }
+    fn write_vectored(&mut self, bufs: &[std::io::IoSlice<'_>]) -> std::io::Result<usize> {
+        let mut budget = self.chunk;
+        let mut n = 0;
+        for b in bufs {
+            let k = b.len().min(budget);
+            self.out.extend_from_slice(&b[..k]);
+            n += k;
+            budget -= k;
+            if budget == 0 {
+                break;
+            }
+        }
+        Ok(n)
+    }
+    fn flush(&mut self) -> std::io::Result<()> {
+        Ok(())
+    }
+}
+
 /// C16: reported offsets are the real boundaries in W(p).
 pub fn oracle_offsets(sub: &str, p: &Package, rank: u64, case: &dyn Fn() -> Value, acc: &mut Acc) {
     let mut bad = |clause: &str, what: String| {
@@ -149,21 +189,7 @@ pub fn oracle_offsets(sub: &str, p: &Package, rank: u64, case: &dyn Fn() -> Valu
         Ok((o, Ok(w))) => (o, w),
     };
     // the same bytes must come out whatever the sink's appetite (the offsets describe "the" written bytes)
-    for chunk in [1usize, 3] {
-        struct Small {
-            out: Vec<u8>,
-            chunk: usize,
-        }
-        impl std::io::Write for Small {
-            fn write(&mut self, b: &[u8]) -> std::io::Result<usize> {
-                let n = b.len().min(self.chunk);
-                self.out.extend_from_slice(&b[..n]);
-                Ok(n)
-            }
-            fn flush(&mut self) -> std::io::Result<()> {
-                Ok(())
-            }
-        }
+    for chunk in [1usize, 3, 4096] {
         let mut sm = Small { out: vec![], chunk };
         match catch(|| p.write(&mut sm)) {
             Ok(Ok(())) if sm.out == w => {}
